@@ -95,6 +95,8 @@ def need_space(a: str, b: str) -> bool:
 		return True
 	if (ka == 'num' and b[0] == '.') or (a[-1] == '.' and kb == 'num'):
 		return True
+	if a[-1] == '.' and b[0] == '.':
+		return True  # '.' '.' '.' glued is the single token '...': gluing is decided pairwise, so dots are never glued
 	if ka == 'op' and kb == 'op' and any(d in (a + b) and d not in a and d not in b for d in DSL_ONLY):
 		return True  # would form a DSL-only combined symbol of TokenDefinition (not in the Python subset)
 	key = (a, b)
